@@ -79,77 +79,92 @@ var c06Anchors = []string{"^", "$", `\A`, `\z`, `\b`, `\B`}
 
 var c06Quants = []string{"*", "+", "?", "{2}", "{1,3}", "{0,2}", "{2,}", "{0}", "{1}"}
 
-// atom returns a quantifiable unit and whether it can match the empty string.
-func (g *c06Gen) atom(depth int) (string, bool) {
+// atom returns a quantifiable unit, whether it can match the empty string, and whether it is a
+// non-capturing group whose whole body is one quantified piece. Such a group must not be quantified
+// again: regexp2 (like .NET) merges directly nested loops of the same greediness into one loop,
+// (?:X{2,}?){1,2}? -> X{2,}?, (?:(X)+){2} -> (X){2,}, which changes the preference order among
+// matches / the captures whenever the orders differ (design.d/C06.md, "nested quantifiers").
+func (g *c06Gen) atom(depth int) (string, bool, bool) {
 	r := g.rng.Intn(100)
 	switch {
 	case r < 35 || depth <= 0 && r < 60:
-		return c06Lits[g.rng.Intn(len(c06Lits))], false
+		return c06Lits[g.rng.Intn(len(c06Lits))], false, false
 	case r < 60 || depth <= 0:
-		return c06Classes[g.rng.Intn(len(c06Classes))], false
+		return c06Classes[g.rng.Intn(len(c06Classes))], false, false
 	}
-	body, nullable := g.alt(depth - 1)
+	body, nullable, single := g.alt(depth - 1)
 	switch g.rng.Intn(8) {
 	case 0, 1, 2:
-		return "(" + body + ")", nullable
+		return "(" + body + ")", nullable, false
 	case 3, 4:
-		return "(?:" + body + ")", nullable
+		return "(?:" + body + ")", nullable, single
 	case 5:
 		g.names++
-		return fmt.Sprintf("(?P<n%d>%s)", g.names, body), nullable
+		return fmt.Sprintf("(?P<n%d>%s)", g.names, body), nullable, false
 	default:
 		flags := []string{"i", "s", "m", "i", "is", "ms", "-s", "-i"}
-		return "(?" + flags[g.rng.Intn(len(flags))] + ":" + body + ")", nullable
+		return "(?" + flags[g.rng.Intn(len(flags))] + ":" + body + ")", nullable, single
 	}
 }
 
-// piece = anchor | atom with an optional quantifier (only on a non-nullable atom)
-func (g *c06Gen) piece(depth int) (string, bool) {
+// piece = anchor | atom with an optional quantifier (only on a non-nullable atom); the third result
+// says whether the piece is transparent to loop merging: a quantified atom, or an unquantified
+// non-capturing group around exactly one such piece
+func (g *c06Gen) piece(depth int) (string, bool, bool) {
 	if g.rng.Intn(8) == 0 {
-		return c06Anchors[g.rng.Intn(len(c06Anchors))], true
+		return c06Anchors[g.rng.Intn(len(c06Anchors))], true, false
 	}
-	a, nullable := g.atom(depth)
-	if nullable || g.rng.Intn(5) < 2 {
-		return a, nullable
+	a, nullable, single := g.atom(depth)
+	if nullable || single || g.rng.Intn(5) < 2 {
+		return a, nullable, single
 	}
 	q := c06Quants[g.rng.Intn(len(c06Quants))]
 	qn := q == "*" || q == "?" || strings.HasPrefix(q, "{0")
 	if g.rng.Intn(3) == 0 {
 		q += "?"
 	}
-	return a + q, qn
+	return a + q, qn, true
 }
 
-func (g *c06Gen) seq(depth int) (string, bool) {
+func (g *c06Gen) seq(depth int) (string, bool, bool) {
 	k := 1 + g.rng.Intn(3)
 	var sb strings.Builder
-	nullable := true
+	nullable, single := true, false
+	prevQuantified := false
 	for i := 0; i < k; i++ {
-		p, pn := g.piece(depth)
+		p, pn, ps := g.piece(depth)
+		if p == `\B` && prevQuantified {
+			// known finding probe:nonboundary-after-nonword-loop: a loop directly before \B is made
+			// atomic when its characters are non-word characters
+			p = `\b`
+		}
+		prevQuantified = ps
 		sb.WriteString(p)
 		nullable = nullable && pn
+		single = k == 1 && ps
 	}
-	return sb.String(), nullable
+	return sb.String(), nullable, single
 }
 
-func (g *c06Gen) alt(depth int) (string, bool) {
+func (g *c06Gen) alt(depth int) (string, bool, bool) {
 	k := 1
 	if g.rng.Intn(3) == 0 {
 		k = 2 + g.rng.Intn(2)
 	}
 	parts := make([]string, k)
-	nullable := false
+	nullable, single := false, false
 	for i := range parts {
 		if k > 1 && g.rng.Intn(8) == 0 {
 			parts[i] = ""
 			nullable = true
 			continue
 		}
-		p, pn := g.seq(depth)
+		p, pn, ps := g.seq(depth)
 		parts[i] = p
 		nullable = nullable || pn
+		single = k == 1 && ps
 	}
-	return strings.Join(parts, "|"), nullable
+	return strings.Join(parts, "|"), nullable, single
 }
 
 var c06InputItems = []string{
@@ -160,7 +175,7 @@ var c06InputItems = []string{
 
 func c06GenCase(rng *rand.Rand, i int) c06Case {
 	g := &c06Gen{rng: rng}
-	pat, _ := g.alt(2)
+	pat, _, _ := g.alt(2)
 	if rng.Intn(6) == 0 {
 		pat = []string{"(?i)", "(?s)", "(?m)", "(?is)", "(?im)"}[rng.Intn(5)] + pat
 	}
@@ -502,6 +517,8 @@ func init() {
 		probes := []c06Case{
 			// carried as a known finding: regexp folds \w before negating, regexp2 folds the negated class
 			probe("fold-negated-perl-class", `(?i)\W`, "k"),
+			// reported, not yet decided: the auto-atomic rewrite makes a non-word loop before \B atomic
+			probe("nonboundary-after-nonword-loop", `-+\B`, "--b"),
 		}
 		core.RunLeg(c, core.Leg[c06Case]{
 			Name: "K", Kind: "oracle",
